@@ -21,6 +21,7 @@ from .world import S
 from . import oracle
 
 WHAT = {
+    "Q6": "the rerun file (every report file) is truncated when opened: it lists the failures of the last run only",
     "Q1": "rerun collects exactly the scenarios that ended failed or in an error-class status, whatever the feature's status",
     "Q3": "rerun close(): failures => write; none and existing named file => remove; stream closed",
     "Q4": "rerun line format '<file>:<line>' is what the location parser reads; banner/comment lines are skipped by the list parser",
@@ -198,3 +199,27 @@ def check_format_agreement(chk, ix):
         chk.ok("Q4", {"list_parser": "skips blank and '#' lines"}, nontrivial_key="skip")
     else:
         _fail(chk, "Q4", lp, "comment skipping", "FeatureListParser.parse does not skip blank and '#' lines (the rerun banner would be read as a file name)")
+
+
+def check_outfile_mode(chk, ix):
+    """Q6: a report file (the rerun file among them) replaces what an earlier run left: StreamOpener.open truncates."""
+    import ast as _ast
+    chk.rule("Q6", WHAT["Q6"])
+    f = ix.func("behave.formatter.base:StreamOpener.open")
+    opens = [n for n in _ast.walk(f.node) if isinstance(n, _ast.Call) and unparse(n.func) in ("open", "codecs.open", "io.open")]
+    if not opens:
+        raise AnalysisError("anchor missing: open() call in StreamOpener.open")
+    for c in opens:
+        chk.instance("Q6")
+        mode = None
+        if len(c.args) > 1 and isinstance(c.args[1], _ast.Constant):
+            mode = c.args[1].value
+        for k in c.keywords:
+            if k.arg == "mode" and isinstance(k.value, _ast.Constant):
+                mode = k.value.value
+        if isinstance(mode, str) and "w" in mode and "a" not in mode:
+            chk.ok("Q6", {"StreamOpener.open": "open(name, %r)" % mode}, nontrivial_key=mode)
+        else:
+            chk.fail(Finding("Q6", f.fullname, "open mode %r" % (mode,), "StreamOpener.open opens the report file with mode %r: the rerun file of "
+                             "the previous run is not replaced, so scenarios that pass now stay listed (and feeding the file back re-runs them)" % (mode,),
+                             file=f.file, line=c.lineno))
